@@ -11,7 +11,7 @@ partial def readAll (h : IO.FS.Stream) (acc : Array String) : IO (Array String) 
 /-- families handled by the generic function-level acceptor -/
 def funcFamilies : List String :=
   ["ctstress", "setops", "arith", "build", "copy", "image", "reach", "canon", "iter", "index", "io",
-   "reorder", "policy", "errors", "pregen", "life"]
+   "reorder", "policy", "errors", "pregen", "life", "oplife"]
 
 def main (args : List String) : IO UInt32 := do
   let lines ← match args with
